@@ -661,6 +661,8 @@ func (e *Enc) execCall(v ssa.Value, c *ssa.CallCommon, in ssa.Instruction, guard
 	var results []Val
 	if fc != nil {
 		results = e.applyContract(fc, key, site, sig, sfn, c, args, argTypes, bindings, in)
+	} else if g := e.inlineTarget(c); g != nil && v != nil {
+		results = e.inlineCall(g, args, in)
 	} else {
 		results = e.unknownCall(key, site, sig, c, args, argTypes, in)
 	}
@@ -954,6 +956,9 @@ func (e *Enc) applyAtsIn(in ssa.Instruction, kind, name string, pos token.Pos, a
 		e.atHit[ai] = true
 		env := e.newSpecEnv(e.cur, e.init)
 		env.atBlock = e.curBlock
+		if e.inlineHome != nil {
+			env.atBlock = e.inlineHome
+		}
 		env.atInstr = true
 		for i, a := range args {
 			sv := SV{T: a.T, Sort: e.declOfTerm(a.T)}
